@@ -94,6 +94,25 @@ META = {
     "C17-getaddrinfo-guard-inverted": ("C17", "the guard that undefines PLIBSYS_HAS_GETADDRINFO lost its `!`: the getaddrinfo branch is compiled out; needs a scoped IPv6 string such as fe80::1%lo"),
     "C18-hash-table-new-unwinds-with-free": ("C18", "p_hash_table_new stores size before the bucket allocation and unwinds with p_hash_table_free; needs the second allocation of the call to fail"),
     "C19-socket-errno-include-dropped": ("C19", "#include <errno.h> removed from psocket.c: every #ifdef EINTR retry is compiled out; needs a handled signal during connect/accept/recv/send/poll"),
+    # ---- round 5 ----
+    "C01-trylock-true-unless-ebusy": ("C01", "p_mutex_trylock returns TRUE unless the native result is EBUSY; needs pthread_mutex_trylock to fail with EAGAIN/EINVAL/... while another thread holds the mutex"),
+    "C02-posix-rwlock-writer-preferring-attr": ("C02", "native rwlock created with PTHREAD_RWLOCK_PREFER_WRITER_NONRECURSIVE_NP; needs a writer queued behind a reader when a second read lock is requested"),
+    "C03-signal-skipped-by-signalled-flag": ("C03", "signal skips pthread_cond_signal while a `signalled` flag is set, wait clears it on entry; needs two blocked waiters and two signals without a wait in between"),
+    "C04-sim-cas-takes-mutex-by-trylock": ("C04", "sim atomic model: compare-and-exchange takes the global mutex with trylock and fails when it is busy; needs another atomic operation in flight"),
+    "C05-tls-key-loser-returns-freed-key": ("C05", "the loser of the first-use key CAS returns its freed key holder instead of adopting the winner's; needs two threads making the first use of one key concurrently"),
+    "C06-sysv-release-without-undo": ("C06", "System V model: release drops SEM_UNDO while acquire keeps it; needs a second process that uses the name and exits, or 32768 acquires by one process"),
+    "C07-opened-semaphore-marked-created": ("C07", "a semaphore that was merely opened is marked created: a visitor's free unlinks the segment lock's name; needs creator, visitor opened and freed, then a third opener"),
+    "C08-clear-zeroes-ring-size-bytes": ("C08", "clear zero-fills buf->size bytes instead of the segment; needs a buffer of capacity 7 or less cleared while write_pos is non-zero"),
+    "C09-receive-from-sockaddr-too-small": ("C09", "receive_from's address buffer is a 16-byte struct sockaddr; needs an IPv6 datagram socket and a caller asking for the sender address"),
+    "C10-socket-errno-include-dropped-timeouts": ("C10", "#include <errno.h> removed from psocket.c again (EINTR retries compiled out), shown through the timeout clause; needs a handled signal during a timed blocking call"),
+    "C11-sha512-byte-swap-moved-to-digest": ("C11", "the final byte swap of SHA-384/512 moved from finish into digest; needs the result of one finished hash read twice on a little-endian host"),
+    "C14-bst-node-freed-before-notifiers": ("C14", "BST remove frees the node before handing its key and value to the notifiers; needs an allocator that scrubs or reuses freed blocks"),
+    "C15-remove-presence-by-lookup-marker": ("C15", "remove decides presence through p_hash_table_lookup != (ppointer) -1; needs a key stored with the all-ones value"),
+    "C16-double-getter-through-float": ("C16", "the double getter keeps the p_strtod result in a pfloat local; needs a value with more than single precision or an exponent beyond 38"),
+    "C17-ipv4-text-parsed-by-inet-aton": ("C17", "IPv4 text parsed with inet_aton instead of inet_pton; needs a non-canonical form such as 127.1, 0x7f.0.0.1 or 010.1.1.1"),
+    "C18-list-append-returns-null-on-oom": ("C18", "p_list_append returns NULL instead of the list when the node allocation fails; needs an allocation failure in an append onto a non-empty list"),
+    "C19-shm-open-retry-on-cached-errno": ("C19", "the second shm_open retry loop tests a cached errno that is always EEXIST there; needs EINTR on the plain open of an existing segment"),
+    "C20-socket-new-treats-fd-zero-as-failure": ("C20", "p_socket_new treats descriptor 0 as a failed socket(): the socket is neither stored nor closed; needs fd 0 to be free"),
     "C20-dir-handle-stored-after-path-copies": ("C20", "p_dir_new stores the DIR handle only after the path copies succeeded; needs the 2nd or 3rd allocation of the call to fail"),
 }
 
